@@ -22,6 +22,16 @@ Multichannel: when an item of levels / times / curves is itself a list the
 envelope has as many channels as the longest inner list and channel c takes
 item[c % len] (names, numbers or both inside a nested curves entry).
 
+Signals: inside a synthesis definition every numeric field of an envelope
+(levels, times, curvatures, release / loop node, offset) may be the output of a
+unit generator instead of a number ("levels can be any ugen", controls for
+times and curvatures).  The model represents such a value by an opaque `Sig`
+placeholder; arithmetic a constructor is documented to do with its parameters
+(half the duration, peak * sustain + bias, the sum of the times) yields `Expr`
+trees.  A signal in `curves` is a curvature: shape 5 with that very signal as
+the curvature value.  `evaluate(x, env)` replaces every placeholder by the
+number `env[tag]`.
+
 The second half are *predicates* for client-side evaluation (`value_ok`): they
 do not recompute segment shapes, they state what the property states - levels
 at the breakpoints, between the neighbouring levels inside a segment, last
@@ -55,8 +65,71 @@ def is_number(x):
     return isinstance(x, (int, float)) and not isinstance(x, bool)
 
 
+class Signal:
+    """Base of the placeholders for unit generator outputs; arithmetic builds
+    expression trees (what the documented constructor arithmetic amounts to)."""
+    __slots__ = ()
+
+    def __add__(self, o): return Expr('+', self, o)
+    def __radd__(self, o): return Expr('+', o, self)
+    def __sub__(self, o): return Expr('-', self, o)
+    def __rsub__(self, o): return Expr('-', o, self)
+    def __mul__(self, o): return Expr('*', self, o)
+    def __rmul__(self, o): return Expr('*', o, self)
+    def __truediv__(self, o): return Expr('/', self, o)
+    def __rtruediv__(self, o): return Expr('/', o, self)
+    def __neg__(self): return Expr('-', 0, self)
+    __hash__ = object.__hash__
+
+
+class Sig(Signal):
+    """A signal the caller hands to the envelope: tag names it."""
+    __slots__ = ('tag',)
+
+    def __init__(self, tag):
+        self.tag = tag
+
+    def __repr__(self):
+        return f'<{self.tag}>'
+
+
+class Expr(Signal):
+    __slots__ = ('op', 'a', 'b')
+
+    def __init__(self, op, a, b):
+        self.op, self.a, self.b = op, a, b
+
+    def __repr__(self):
+        return f'({self.a!r} {self.op} {self.b!r})'
+
+
+def is_signal(x):
+    return isinstance(x, Signal)
+
+
+def has_signal(x):
+    if isinstance(x, (list, tuple)):
+        return any(has_signal(y) for y in x)
+    return is_signal(x)
+
+
+def evaluate(x, env):
+    """Number for a number / placeholder / expression (lists element-wise)."""
+    if isinstance(x, list):
+        return [evaluate(y, env) for y in x]
+    if isinstance(x, Sig):
+        return env[x.tag]
+    if isinstance(x, Expr):
+        a, b = evaluate(x.a, env), evaluate(x.b, env)
+        if x.op == '+': return a + b
+        if x.op == '-': return a - b
+        if x.op == '*': return a * b
+        return a / b
+    return x
+
+
 def shape_of(curve):
-    if is_number(curve):
+    if is_number(curve) or is_signal(curve):
         return CURVE_SHAPE, curve
     return SHAPE_NUMBERS[curve], 0
 
@@ -149,6 +222,13 @@ def column_name(k):
         return ('initial-level', 'segment-count', 'release-node',
                 'loop-node')[k]
     return ('level', 'time', 'shape', 'curve')[(k - 4) % 4]
+
+
+def interpolation_column_name(k):
+    if k < 4:
+        return ('offset', 'initial-level', 'segment-count',
+                'total-duration')[k]
+    return ('time', 'shape', 'curve', 'level')[(k - 4) % 4]
 
 
 def _close(a, b, rel):
